@@ -288,6 +288,8 @@ def job_helpers():
                 extra = []
             r, m = core.check(pre + leaf.pc + leaf.side + [d != 0], timeout_ms=60000)
             recs.append(q(f"C20:helpers:get_block_size:{bits}:leaf{li}", r))
+            if li == 0:     # vacuity twin: the path is reachable and the value is not a constant
+                recs.append(q(f"C20:helpers:get_block_size:{bits}:twin", core.check(pre + leaf.pc + leaf.side + [bs != want + 1], timeout_ms=30000)[0], expect='sat'))
             if r == 'sat':
                 recs.append(cex('C20:helpers:get_block_size', 'get_block_size differs from tchans*fftlength*int_factor*chans*antennas*bytes_per_sample', dict(fn='helpers', which='block_size', bits=bits), name=f"C20:helpers:get_block_size:{bits}:leaf{li}"))
     # get_total_obs_num_samples vs backend, num_blocks mode (symbolic n, k) and obs_length mode (symbolic L),
